@@ -123,6 +123,26 @@ def run(payload):
                     bad, prev = True, float("nan")
             if bad:
                 fail("geometric.accepted_parameters", scale=scale2, factor=factor2, t_init=t0, last=float(prev))
+        # ---- constant: whatever period the constructor accepts must give an increasing schedule never behind the query
+        dt2 = float(rng.choice([-1.0, -0.25, 0.0, 0.5]))
+        cases += 1
+        try:
+            ir = ConstantInterrupts(dt2)
+        except ValueError:
+            ir = None
+        if ir is not None:
+            t0 = float(rng.choice([0.0, 1.0]))
+            try:
+                prev = ir.initialize(t0)
+                bad = not (prev >= t0)
+                for t in (t0 + 0.3, t0 + 1.7, t0 + 1.7, t0 + 4.2):
+                    a = ir.next(t)
+                    bad = bad or not (a >= t - 1e-9) or not (a > prev)
+                    prev = a
+            except ArithmeticError:
+                bad, prev = True, float("nan")
+            if bad:
+                fail("constant.accepted_period", dt=dt2, t_init=t0, last=float(prev))
         # ---- logarithmic (no catch-up queries: gaps must grow exactly by the factor)
         d0, factor = float(rng.choice([0.1, 1.0])), float(rng.choice([1.0, 1.5, 2.0]))
         ir = LogarithmicInterrupts(d0, factor)
